@@ -16,7 +16,7 @@ from ..gen import subdiv as GS
 
 PID = "C13"
 TITLE = "Subdivision refines a mesh without changing its shape or topology"
-LEAN_MODULES = ["Mouette.Props.C13"]
+LEAN_MODULES = ["Mouette.Props.C13", "Mouette.Props.C13Source"]
 REQUIRED_THEOREMS = [
     # P0 element counts (all meshes)
     "fan_counts", "quad_split_counts", "triangulate_face_counts", "triangulate_counts", "loop_counts",
@@ -46,11 +46,28 @@ REQUIRED_THEOREMS = [
     # bridges to the translated tables of subdivision.py
     "loop_pattern_follows_source", "quads_pattern_follows_source", "quad_cut_pattern_follows_source",
     "cell_fan_pattern_follows_source", "face_split_pattern_follows_source",
+    # round 4: BODIES of every operation translated from subdivision.py on every run + bridges to the hand model
+    "split_edge_follows_source", "split_edge_clears_connectivity", "split_face_as_fan_follows_source", "triangulate_face_follows_source",
+    "triangulate_follows_source", "loop_subdivision_follows_source", "subdivide_triangles_3quads_follows_source",
+    "subdivide_triangles_6_follows_source", "split_cell_as_fan_follows_source", "split_tet_from_face_center_follows_source",
+    "apply_op_follows_source", "faces_ge2_invariant", "run_ops_follows_source",
+    "area_preserved_block_source", "old_vertices_unchanged_source", "counts_source",
+    # round 4: the editing-block protocol from the translated step lists; histories with an exception / nested blocks
+    "init_follows_source", "enter_follows_source", "exit_follows_source", "exit_without_reinit_is_shipped",
+    "input_object_state_source", "exception_inside_block", "nested_blocks_outer_exit_wins", "id_ranges_follow_source",
+    # round 4: the quad cut of triangulate_face: directed sides, orientation / border sides on regular complexes, components
+    "manifold_preserved_quad_cut", "border_preserved_quad_cut", "components_preserved_quad_cut", "quad_cut_source",
 ]
 TRUSTED = [
     "Lean 4.33.0 kernel; axioms ⊆ {propext, Classical.choice, Quot.sound}",
-    "hand-written model Mouette/Model/Subdiv.lean (operations of mouette/mesh/subdivision.py + prepare() edge/face completion "
-    "of mesh_data.py) tied to the code by the correspondence of this run (result containers, input-object view)",
+    "hand-written model Mouette/Model/Subdiv.lean: every operation of mouette/mesh/subdivision.py is PROVED equal to the body "
+    "translated from the working tree on every run (Generated/C13Src.lean, bridges in Props/C13Source.lean); prepare()'s "
+    "edge/face completion (mesh_data.py) and the two-alias view of the caller's object stay hand-modelled, tied to the code by "
+    "the correspondence of this run (result containers, input-object view)",
+    "meaning given to the Python statements by the body translator vlib/gen/c13_translate.py (vocabulary in "
+    "Model/SubdivSource.lean: list / dict / set operations, exceptions as Err, loops as folds over a list fixed at loop start, "
+    "exact rational point arithmetic); numpy broadcasting / dtype effects of the point arithmetic are NOT in the vocabulary "
+    "(covered by the representation families of the oracle)",
     "float rounding of midpoints/barycentres not modelled (exact Rat in the model; tolerance 1e-9*scale+1e-12)",
     "Python set iteration order in loop_subdivision's edge set is forgotten by the comparator (position bijection)",
     "independent routine vlib/gen/mesh.py: surface_stats (manifoldness, Euler characteristic, border loops, components)",
@@ -548,6 +565,7 @@ def oracle(case):
             out += fs
             if not held: held.append(("input", info.get("m")))
             if info.get("err") is not None or info.get("res") is None: break
+            if any("result-invalid" in f["key"] for f in fs): break      # the next block would start from an invalid mesh: already reported
             held.append((f"result{bi}", info["res"]))
             mesh = info["res"]
             # every name the caller holds must denote a consistent mesh (checked by value, whatever object it is)
@@ -600,8 +618,9 @@ def _oracle_block(case, mesh=None, info=None, editor=None):
 
     # (1) every admissible mesh is accepted (an operation given an id that does not exist must raise IndexError)
     if "bad" in case:
-        if err is None or err != ("err:Index", case["bad"]):
-            add(f"{case['ops'][case['bad']][0]}/bad-id-not-rejected", f"operation with a non-existent id: expected IndexError at op {case['bad']}, got {err}", "")
+        # an id that does not exist: the statement says nothing about HOW it is refused (round 4: the demand for an IndexError
+        # was stricter than the property and is gone); what the statement does demand - the object passed in is never left
+        # half-updated - is still checked below on these scenarios
         err_expected = True
     else:
         err_expected = False
@@ -1160,9 +1179,19 @@ MANIFEST = {
                    "expressions, new-vertex numbering, enter/exit steps and fan index expressions of the source are re-extracted "
                    "with Python ast on every run and bridged to the model. The model is tied to the code by a scenario correspondence (result "
                    "containers in order, input object afterwards) and an independent oracle (manifoldness, chi / border loops / "
-                   "components via surface_stats, area, volume, connectivity answers vs direct inspection, input object state)."),
-    "level_note": ("Trusted: Lean kernel + propext/Classical.choice/Quot.sound; the hand-written model (checked against the code on the "
-                   "scenarios of each run only); the ast translator for the literal tables; float rounding not modelled. NOT proved "
+                   "components via surface_stats, area, volume, connectivity answers vs direct inspection, input object state). "
+                   "ROUND 4: the BODY of every operation of subdivision.py (split_edge, split_face_as_fan, triangulate_face, triangulate, "
+                   "loop_subdivision, subdivide_triangles_3quads, subdivide_triangles_6, split_cell_as_fan, split_tet_from_face_center) is "
+                   "translated imperatively from the working tree on every run (statement order, loops as folds, guards, index "
+                   "expressions, dict / set writes) and PROVED equal to the hand model for all meshes (`*_follows_source`, "
+                   "`run_ops_follows_source`), so every theorem speaks about what the source says; the step lists of __init__ / "
+                   "__enter__ / __exit__ are translated and interpreted on the block model (`enter_follows_source`, "
+                   "`exit_follows_source`); an exception inside a block still leaves the caller's object coherent "
+                   "(`exception_inside_block`); the quad cut adds exactly the two orientations of its diagonal to the directed sides, "
+                   "preserves orientation / border sides when the diagonal is not already a side, and always preserves the components."),
+    "level_note": ("Trusted: Lean kernel + propext/Classical.choice/Quot.sound; the meaning the body translator gives to the Python "
+                   "statements (Model/SubdivSource.lean); the hand-written model of prepare() and of the caller's object (checked "
+                   "against the code on the scenarios of each run only); float rounding not modelled. NOT proved "
                    "(oracle/correspondence only): border loops / components for operations other than the 1->4 pass, the umbrella "
                    "condition at vertices (full 2-manifoldness), orientation/border preservation for the quad cut (false in general: "
                    "open finding) and for 1->3 quads / 1->6, preservation of the counting hypotheses themselves by the operations "
@@ -1199,10 +1228,47 @@ def translate():
         return "." + t
 
     def for_table(fn, target):
+        """the loop over a literal table: `new_tri` / `new_face` = the one whose body appends to `.faces`, `new_edge` = the one
+        whose body adds to the edge set (whatever the loop variable is called)"""
+        want = "edges" if target == "new_edge" else "faces"
+        hits = []
         for n in ast.walk(fn):
-            if isinstance(n, ast.For) and isinstance(n.target, ast.Name) and n.target.id == target:
-                return names(n.iter)
-        raise T.TranslateError(f"loop over literal table `{target}` not found")
+            if isinstance(n, ast.For) and isinstance(n.target, ast.Name) and isinstance(n.iter, (ast.List, ast.Tuple)):
+                body = " ".join(ast.unparse(b) for b in n.body)
+                kind = "edges" if ".add(" in body else "faces" if (".faces.append(" in body or ".faces +=" in body) else None
+                if kind == want: hits.append(n)
+        if len(hits) != 1: raise T.TranslateError(f"loop over the literal {want} table: found {len(hits)}")
+        return names(hits[0].iter)
+
+    def canon(fn, lenrole=None):
+        """renames the locals of a refinement function to the role names of SYMS, from the STRUCTURE: corner unpacking in order
+        -> A, B, C, D; `x = <dict>[keyify(P, Q)]` -> mPQ; `x = <dict>[<index>]` -> S; `x = len(<..>.vertices)` -> `lenrole`"""
+        import copy as _copy
+        fn = _copy.deepcopy(fn)
+        ren = {}
+        for n in ast.walk(fn):
+            if isinstance(n, ast.Assign) and len(n.targets) == 1 and isinstance(n.targets[0], ast.Tuple) \
+                    and len(n.targets[0].elts) in (3, 4) and all(isinstance(e, ast.Name) for e in n.targets[0].elts) \
+                    and not isinstance(n.value, (ast.GeneratorExp, ast.ListComp)):
+                for e, role in zip(n.targets[0].elts, "ABCD"):
+                    ren.setdefault(e.id, role)
+        for n in ast.walk(fn):
+            if isinstance(n, ast.Assign) and len(n.targets) == 1 and isinstance(n.targets[0], ast.Name):
+                v = n.value
+                if isinstance(v, ast.Subscript) and isinstance(v.value, ast.Name):
+                    k = v.slice
+                    if isinstance(k, ast.Call) and getattr(k.func, "id", "") == "keyify" and len(k.args) == 2 and all(isinstance(a, ast.Name) for a in k.args):
+                        ren.setdefault(n.targets[0].id, "m" + "".join(ren.get(a.id, a.id) for a in k.args))
+                    elif isinstance(k, ast.Name) and v.value.id not in ren and k.id not in ren:
+                        ren.setdefault(n.targets[0].id, "S")
+                elif lenrole and isinstance(v, ast.Call) and getattr(v.func, "id", "") == "len" and ast.unparse(v.args[0]).endswith(".vertices"):
+                    ren.setdefault(n.targets[0].id, lenrole)
+        # a role name already used for something else would be captured: refuse
+        clash = {x.id for x in ast.walk(fn) if isinstance(x, ast.Name)} & (set(ren.values()) - set(ren))
+        clash -= {k for k, v in ren.items() if k == v}
+        for x in ast.walk(fn):
+            if isinstance(x, ast.Name) and x.id in ren: x.id = ren[x.id]
+        return fn
 
     def is_sub(node, attr):
         """self.mesh.<attr>[...]"""
@@ -1226,6 +1292,16 @@ def translate():
         return unpack, st, app
 
     tree, _ = T.load("mouette/mesh/subdivision.py")
+    # round 4: the BODIES of the operations, the block protocol as step lists, the id_* properties -> Generated/C13Src.lean
+    from ..gen import c13_translate as CT
+    recs_bodies, translated_bodies = CT.translate_bodies()
+    _refresh_source_map(translated_bodies)
+    import copy as _cp
+
+    def normalised(fn):
+        """the function with the respellings of the body translator normalised away (`x += [e]` = append, flipped comparisons ..)"""
+        f2 = CT.Norm().visit(_cp.deepcopy(fn)); ast.fix_missing_locations(f2)
+        return f2
 
     def lookups(fn):
         """`mXY = half[keyify(X,Y)]` -> [[mXY, X, Y], ...] in source order"""
@@ -1233,7 +1309,7 @@ def translate():
         for n in ast.walk(fn):
             if isinstance(n, ast.Assign) and len(n.targets) == 1 and isinstance(n.targets[0], ast.Name) \
                     and n.targets[0].id in ("mAB", "mBC", "mCA") and isinstance(n.value, ast.Subscript) \
-                    and isinstance(n.value.value, ast.Name) and n.value.value.id == "half":
+                    and isinstance(n.value.value, ast.Name):
                 key = n.value.slice
                 if not (isinstance(key, ast.Call) and getattr(key.func, "id", "") == "keyify"):
                     raise T.TranslateError("half[...] key is not keyify(..)")
@@ -1242,23 +1318,23 @@ def translate():
         return out
 
     def site_loop():
-        fn = T.find_def(tree, "SurfaceSubdivision.loop_subdivision")
+        fn = canon(T.find_def(tree, "SurfaceSubdivision.loop_subdivision"))
         defs["loopTris"] = for_table(fn, "new_tri"); defs["loopEdges"] = for_table(fn, "new_edge")
         defs["loopLookups"] = lookups(fn)
         return f"{len(defs['loopTris'])} faces, {len(defs['loopEdges'])} edges per triangle, lookups {defs['loopLookups']}"
 
     def site_q3():
-        fn = T.find_def(tree, "SurfaceSubdivision.subdivide_triangles_3quads")
+        fn = canon(T.find_def(tree, "SurfaceSubdivision.subdivide_triangles_3quads"))
         defs["quads"] = for_table(fn, "new_face"); defs["quadEdges"] = for_table(fn, "new_edge")
         defs["quadLookups"] = lookups(fn)
         return f"{len(defs['quads'])} faces, {len(defs['quadEdges'])} edges per triangle, lookups {defs['quadLookups']}"
 
     def site_quad():
-        fn = T.find_def(tree, "SurfaceSubdivision.triangulate_face")
+        fn = canon(normalised(T.find_def(tree, "SurfaceSubdivision.triangulate_face")))
         branch = None
         for n in ast.walk(fn):
             if isinstance(n, ast.If) and isinstance(n.test, ast.Compare) and isinstance(n.test.ops[0], ast.Eq) \
-                    and isinstance(n.test.comparators[0], ast.Constant) and n.test.comparators[0].value == 4:
+                    and any(isinstance(x, ast.Constant) and x.value == 4 for x in (n.test.comparators[0], n.test.left)):
                 branch = n.body
         if branch is None: raise T.TranslateError("`len(F)==4` branch not found")
         unpack, st, app = set_append(branch, "faces")
@@ -1273,14 +1349,14 @@ def translate():
         return f"unpack {unpack} set {st} append {app} diagonal {edge}"
 
     def site_cfan():
-        fn = T.find_def(tree, "VolumeSubdivision.split_cell_as_fan")
+        fn = canon(T.find_def(tree, "VolumeSubdivision.split_cell_as_fan"), "ibary")
         unpack, st, app = set_append(fn.body, "cells")
         if unpack is None: raise T.TranslateError("cell unpacking not found")
         defs["cellUnpack"], defs["cellSet"], defs["cellAppend"] = unpack, st, app
         return f"unpack {unpack} set {st} append {app}"
 
     def site_fsp():
-        fn = T.find_def(tree, "VolumeSubdivision.split_tet_from_face_center")
+        fn = canon(T.find_def(tree, "VolumeSubdivision.split_tet_from_face_center"), "icenter")
         unpack, st, app = set_append(fn.body, "faces")
         if unpack is None: raise T.TranslateError("face unpacking not found")
         defs["faceUnpack"], defs["faceSet"], defs["faceAppend"] = unpack, st, app
@@ -1301,16 +1377,33 @@ def translate():
             for fac in (expr.left, expr.right):
                 if isinstance(fac, ast.BinOp) and isinstance(fac.op, ast.Div) and isinstance(fac.left, ast.Constant) and fac.left.value == 1:
                     return divisor(ast.BinOp(left=ast.Name(id="X"), op=ast.Div(), right=fac.right))
+                if isinstance(fac, ast.Constant) and isinstance(fac.value, float) and fac.value > 0 and _Fr(fac.value).numerator == 1 \
+                        and _Fr(fac.value).denominator in (2, 3):
+                    return ("const", _Fr(fac.value).denominator)          # `X * 0.5` = `X / 2`
         if isinstance(expr, ast.BinOp) and isinstance(expr.op, ast.Mult) and isinstance(expr.left, ast.Constant) \
                 and isinstance(expr.left.value, (int, float)):
             fr = _Fr(expr.left.value)
             return ("scale", fr.numerator, fr.denominator)
         raise T.TranslateError(f"centre expression not understood: {ast.unparse(expr)[:80]}")
 
+    _CENTRE_KIND = {"pV": "sum", "pS": "sum", "pcenter": "sum", "pC": "mid", "bary": "chain"}
+
     def assign_of(fn, name):
+        """the assignment computing a centre, found by its SHAPE (the local may be called anything): `sum([..]) / k`,
+        the half-sum of two vertex reads, or a scaled chain of additions of locals"""
+        kind = _CENTRE_KIND[name]
+
+        def is_centre(v):
+            if not (isinstance(v, ast.BinOp) and isinstance(v.op, (ast.Div, ast.Mult))): return False
+            u = ast.unparse(v)
+            has_sum = any(isinstance(x, ast.Call) and getattr(x.func, "id", "") == "sum" for x in ast.walk(v))
+            reads = u.count(".vertices[")
+            if kind == "sum": return has_sum
+            if kind == "mid": return (not has_sum) and reads == 2
+            return (not has_sum) and reads == 0 and any(isinstance(x, ast.BinOp) and isinstance(x.op, ast.Add) for x in ast.walk(v))
         hits = [n for n in ast.walk(fn) if isinstance(n, ast.Assign) and len(n.targets) == 1
-                and isinstance(n.targets[0], ast.Name) and n.targets[0].id == name]
-        if len(hits) != 1: raise T.TranslateError(f"expected exactly one assignment to `{name}`, found {len(hits)}")
+                and isinstance(n.targets[0], ast.Name) and is_centre(n.value)]
+        if len(hits) != 1: raise T.TranslateError(f"expected exactly one centre computation of kind `{kind}`, found {len(hits)}")
         return hits[0].value
 
     def lean_div(d):
@@ -1364,6 +1457,7 @@ def translate():
         struct["loopMidDivisor"] = divisor(assign_of(lp, "pC"))
         struct["edgeMidDivisor"] = divisor(assign_of(se, "pC"))
         struct["cellDivisor"] = divisor(assign_of(cf, "bary"))
+        if struct["cellDivisor"][0] == "const": struct["cellDivisor"] = ("scale", 1, struct["cellDivisor"][1])     # `X / 4` = `0.25 * X`
         struct["faceCentreDivisor"] = divisor(assign_of(fs, "pcenter"))
         return {k: struct[k] for k in ("fanDivisor", "quadsBaryDivisor", "loopMidDivisor", "cellDivisor", "faceCentreDivisor")}
 
@@ -1425,7 +1519,7 @@ def translate():
         return "enter: wrap + clear corners; exit: prepare, re-init the caller's object, rebind; split_edge clears connectivity"
 
     def site_fan_index():
-        fan = T.find_def(tree, "SurfaceSubdivision.split_face_as_fan")
+        fan = normalised(T.find_def(tree, "SurfaceSubdivision.split_face_as_fan"))
         loops = [n for n in ast.walk(fan) if isinstance(n, ast.For) and isinstance(n.target, ast.Name) and n.target.id == "k"]
         if len(loops) != 1 or not (isinstance(loops[0].iter, ast.Call) and getattr(loops[0].iter.func, "id", "") == "range"
                                    and len(loops[0].iter.args) == 2):
@@ -1444,6 +1538,20 @@ def translate():
             raise T.TranslateError("first fan triangle is not [f[0], f[1], iV]")
         struct["fan"] = (T.lean_int_expr(lo), T.lean_int_expr(hi), T.lean_int_expr(tri.elts[0].slice), T.lean_int_expr(tri.elts[1].slice))
         return f"range({ast.unparse(lo)}, {ast.unparse(hi)}) -> [f[{ast.unparse(tri.elts[0].slice)}], f[{ast.unparse(tri.elts[1].slice)}], iV]"
+
+    def site_numbering():            # noqa: F811  (round 4: superseded by the translated bodies, which say much more)
+        need = ["SurfaceSubdivision.loop_subdivision", "SurfaceSubdivision.subdivide_triangles_3quads", "SurfaceSubdivision.subdivide_triangles_6"]
+        miss = [q for q in need if q not in translated_bodies]
+        if miss: raise T.TranslateError(f"bodies not translated: {miss}")
+        struct["numbering"] = True
+        return "numbering / pass order: carried by the translated bodies of loop_subdivision, 3quads, 1->6 (bridges in Props/C13Source)"
+
+    def site_block():                # noqa: F811
+        need = [f"{c}.{m_}" for c in ("SurfaceSubdivision", "VolumeSubdivision") for m_ in ("__init__", "__enter__", "__exit__")] + ["split_edge"]
+        miss = [q for q in need if q not in translated_bodies]
+        if miss: raise T.TranslateError(f"not translated: {miss}")
+        struct["block"] = True
+        return "enter / exit / init steps: carried by the translated step lists (enter_follows_source, exit_follows_source, init_follows_source)"
 
     for nm, fn in [("subdivision.py: loop_subdivision new_tri/new_edge tables", site_loop),
                    ("subdivision.py: subdivide_triangles_3quads new_face/new_edge tables", site_q3),
@@ -1481,4 +1589,69 @@ def translate():
            f"def fanFst (k nf : Nat) : Nat := {i0}\ndef fanSnd (k nf : Nat) : Nat := {i1}\n")
     b2 += "\nend Mouette.Generated.C13\n"
     T.write_generated("C13Struct", b2)
+    recs += recs_bodies
     return recs
+
+
+# ------------------------------------------------------------------------------------------------
+# which functions of the anchor files are inside the model, and how
+# ------------------------------------------------------------------------------------------------
+_SUB, _MD, _MESH = "mouette/mesh/subdivision.py", "mouette/mesh/mesh_data.py", "mouette/mesh/mesh.py"
+# functions whose body is translated on every run and used by a bridge theorem of Props/C13Source.lean (qualified name -> bridge)
+_TRANSLATED = {
+    f"{_SUB}::split_edge": "split_edge_follows_source",
+    f"{_SUB}::SurfaceSubdivision.__init__": "init_follows_source",
+    f"{_SUB}::SurfaceSubdivision.__enter__": "enter_follows_source",
+    f"{_SUB}::SurfaceSubdivision.__exit__": "exit_follows_source",
+    f"{_SUB}::SurfaceSubdivision.triangulate_face": "triangulate_face_follows_source",
+    f"{_SUB}::SurfaceSubdivision.split_face_as_fan": "split_face_as_fan_follows_source",
+    f"{_SUB}::SurfaceSubdivision.triangulate": "triangulate_follows_source",
+    f"{_SUB}::SurfaceSubdivision.loop_subdivision": "loop_subdivision_follows_source",
+    f"{_SUB}::SurfaceSubdivision.subdivide_triangles_6": "subdivide_triangles_6_follows_source",
+    f"{_SUB}::SurfaceSubdivision.subdivide_triangles_3quads": "subdivide_triangles_3quads_follows_source",
+    f"{_SUB}::VolumeSubdivision.__init__": "init_follows_source",
+    f"{_SUB}::VolumeSubdivision.__enter__": "enter_follows_source",
+    f"{_SUB}::VolumeSubdivision.__exit__": "exit_follows_source",
+    f"{_SUB}::VolumeSubdivision.split_cell_as_fan": "split_cell_as_fan_follows_source",
+    f"{_SUB}::VolumeSubdivision.split_tet_from_face_center": "split_tet_from_face_center_follows_source",
+    f"{_MD}::RawMeshData.id_vertices": "id_ranges_follow_source",
+    f"{_MD}::RawMeshData.id_edges": "id_ranges_follow_source",
+    f"{_MD}::RawMeshData.id_faces": "id_ranges_follow_source",
+    f"{_MD}::RawMeshData.id_cells": "id_ranges_follow_source",
+}
+_OTHER = {
+    f"{_SUB}::split_double_boundary_edges_triangles": "oracle-only",
+    f"{_MD}::RawMeshData.__init__": "modelled",                      # Block.enter: the wrapper shares the containers
+    f"{_MD}::RawMeshData.prepare": "modelled",                       # Subdiv.prepare = completeEdges . completeFaces
+    f"{_MD}::RawMeshData._complete_edges_from_faces": "modelled",    # Subdiv.completeEdges
+    f"{_MD}::RawMeshData._complete_faces_from_cells": "modelled",    # Subdiv.completeFaces / tetFaces
+    f"{_MD}::RawMeshData._prepare_edges": "modelled",                # keyify of the given edges (completeEdges)
+    f"{_MD}::RawMeshData._generate_face_corners": "modelled",        # cornerCount / View.corners
+    f"{_MD}::RawMeshData._prepare_vertices": "oracle-only",
+    f"{_MD}::RawMeshData._prepare_faces": "oracle-only",
+    f"{_MD}::RawMeshData._prepare_cells": "oracle-only",
+    f"{_MD}::RawMeshData._generate_cell_corners": "oracle-only",
+    f"{_MD}::RawMeshData._generate_cell_faces": "oracle-only",
+    f"{_MD}::RawMeshData.id_facecorners": "out-of-scope: not used by subdivision.py",
+    f"{_MD}::RawMeshData.id_cellcorners": "out-of-scope: not used by subdivision.py",
+    f"{_MD}::RawMeshData.dimensionality": "out-of-scope: dimensionality of raw data is C02's",
+    f"{_MD}::RawMeshData._compute_dimensionality": "out-of-scope: dimensionality of raw data is C02's",
+    f"{_MD}::RawMeshData._prepare_edges.is_valid": "out-of-scope: invalid edges are C02's (subdivision never creates one)",
+    f"{_MESH}::_instanciate_raw_mesh_data": "out-of-scope: imported by subdivision.py but no longer called (the repaired __exit__ re-initialises the caller's object)",
+    f"{_MESH}::load": "out-of-scope: file input is C04's",
+    f"{_MESH}::save": "out-of-scope: file output is C04's",
+    f"{_MESH}::from_arrays": "out-of-scope: C06",
+    f"{_MESH}::copy": "out-of-scope: C06",
+    f"{_MESH}::merge": "out-of-scope: C06",
+    f"{_MESH}::reorder_vertices": "out-of-scope: C06",
+}
+SOURCE_MAP = dict({k: "translated" for k in _TRANSLATED}, **_OTHER)
+
+
+def _refresh_source_map(translated):
+    """honest per run: a function whose body could not be read this time falls back to `modelled` (hand model + correspondence)"""
+    ok = {q.split(".")[-1] if q.startswith("RawMeshData.") else q for q in translated}
+    ok |= {q for q in translated}
+    for k in _TRANSLATED:
+        q = k.split("::")[1]
+        SOURCE_MAP[k] = "translated" if (q in ok) else "modelled"
